@@ -205,6 +205,7 @@ def check_call(contract, args, repo, ns=None):
       e=dict(envo); e.update({k:v for k,v in loc.items() if k not in envo and not k.startswith('__') and k!='.0'}); return eval(olds[i],e)
     env2['__oldeval']=_oldeval
     try: v=eval(code,env2)
+    except TimeoutError: raise          # the worker's wall-clock alarm: not a property of the function under test
     except Exception as e: v=False; failed.append(f"clause `{ast.unparse(cl)}` not evaluable on the result: {type(e).__name__}: {e}"); continue
     if not v: failed.append(f"clause `{ast.unparse(cl)}` is false")
   frame('')
